@@ -76,7 +76,7 @@ Definition truthy (v : value) : bool :=
   | VJ (JStr []) => false
   | VJ (JList []) => false
   | VJ (JObj []) => false
-  | VT t [] => N.eqb t T_ITER      (* a generator object is always truthy *)
+  | VT t [] => negb (N.eqb t T_LIST || N.eqb t T_TUPLE || N.eqb t T_DICT)   (* empty list, tuple, dict are falsy; a generator object and a tagged user tuple (Tag,) are truthy *)
   | VMissing => true
   | _ => true
   end.
